@@ -74,6 +74,12 @@ func (s ICEServer) urls() ([]*stun.URI, error) { //nolint:cyclop
 }
 
 func iceserverUnmarshalUrls(val any) (*[]string, error) {
+	if val == nil {
+		// MarshalJSON encodes a nil URL list as JSON null
+		var urls []string
+
+		return &urls, nil
+	}
 	s, ok := val.([]any)
 	if !ok {
 		return nil, errInvalidICEServer
